@@ -55,6 +55,17 @@ def gen(ctx):
         add("recv", s, "eof", exp)
     for s, exp in EDGE_CONNECT:
         add("conn", s, "eof", exp)
+    # lenient-number traps: every numeric position of the grammar with texts a sloppy integer parser would accept
+    for v in g.numeric_variants(6):
+        vb = v.encode()
+        add("recv", b"binary: " + vb + b"\nFOOBAR\nOK\n", "eof", "invalid" if vb not in (b"06", b"006") else None)
+        add("recv", b"ACK [" + vb + b"@0] {} x\n", "eof", "invalid" if vb not in (b"06", b"006") else None)
+        add("recv", b"ACK [5@" + vb + b"] {} x\n", "eof", "invalid" if vb not in (b"06", b"006") else None)
+    # sizes: a read that fills the buffer exactly, and large pipelined responses in bulk reads
+    for st, _ in g.exact_fill_streams():
+        add("recv", st, "eof")
+    for st in g.pipelined_long_streams(rng, 2 if ctx.tier == "quick" else 30):
+        add("recv", st, "eof")
     n = 300 if ctx.tier == "quick" else 5000
     for _ in range(n):
         r = rng.random()
